@@ -34,7 +34,7 @@ type AliasResult struct {
 	cfg      *AliasCfg
 	c        *Ctx
 	Tainted  map[*ssa.Function]map[ssa.Value]int // 0 none, 1 reach (fresh memory holding pointers into source memory), 2 mem (points into source memory)
-	HeapKeys map[string][]AliasSite // keys holding alias values, with the stores that put them there
+	HeapKeys map[string][]AliasSite              // keys holding alias values, with the stores that put them there
 	RetAlias map[*ssa.Function]int
 	paramSrc map[*ssa.Function]map[int]int
 	inScope  map[*ssa.Function]bool
